@@ -18,7 +18,7 @@ META = {
                  "bookkeeping for orientation/manifoldness, counting for Euler characteristic, field identities for "
                  "area/volume; an invariant over all operation histories for acceptance) + kernel-checked "
                  "correspondence batches on generated surfaces, tetrahedral meshes and polylines + independent oracle",
-    "level_text": "Machine-checked Coq theorems (coq/theories/C13/Props.v, 76, all closed under the global context) about an executable "
+    "level_text": "Machine-checked Coq theorems (coq/theories/C13/Props.v, 83, all closed under the global context) about an executable "
                   "model of subdivision.py after six fix: commits; face/edge/cell tuples, half-table keys, midpoint/barycentre "
                   "formulas, arity tests, loop counts and enter/exit plumbing are regenerated from the source on every run. "
                   "FULL (all meshes / histories): documented V/E/F/C deltas and Euler characteristic of split_edge, fan, quad "
@@ -28,7 +28,12 @@ META = {
                   "new vertex k is the generated centre formula of edge k / face j / the cell (every operation); over any "
                   "field with 2,3 invertible: centres, quarter/third vector areas, additivity for quad split and any fan, "
                   "quarter/third signed volumes, and - on the model's OUTPUT - total vector area of loop_step and total signed "
-                  "volume of the cell fan unchanged; split_cell_as_fan preserves conformity of the whole mesh; oriented sides of "
+                  "volume of the cell fan unchanged; split_cell_as_fan preserves conformity of the whole mesh; "
+                  "split_tet_from_face_center as a whole loop over the adjacent cells, on the model's output: every side other "
+                  "than the split one keeps exactly its owners and every new side contains the new vertex; the invariant "
+                  "`vol_inv` (in-range cells, faces and cells on different vertices, no two cells on the same four vertices, "
+                  "every triangle a side of at most two cells) holds for every documented input and is kept by both "
+                  "tetrahedral splits, hence by EVERY history of a volume block with no guard on the operations; what both splits do NOT touch (cells not containing the split face, other faces, edge list); oriented sides of "
                   "the pieces of both tetrahedral splits; selection rule of split_double_boundary_edges_triangles; every history "
                   "with existing ids succeeds on every prepared surface / tetrahedral mesh. PARTIAL (guard in the name and "
                   "statement, NOT in the property's quantifier): loop_subdivision(n) manifold / simple / E'=2E+3F / Euler and one "
@@ -38,10 +43,15 @@ META = {
                   "Coq witnesses, replayed every run): argument half-updated after a replacing operation; argument with stale "
                   "tables after an in-place edit; triangulate() on a quad whose cut is already joined; loop_subdivision on two "
                   "triangles with the same vertices. TESTED ONLY (correspondence + oracle): number of border loops as cycles, "
-                  "Euler characteristic and global conformity after split_tet_from_face_center and the faces/edges prepare() adds "
-                  "on exit of the volume block, subdivide_triangles_6(repeat>=2) manifold, chaining of the manifold invariants "
+                  "Euler characteristic V-E+F-C of the tetrahedral splits (it needs the faces/edges prepare() adds "
+                  "on exit of the volume block, which are executed, not stated), positive orientation of the pieces across a "
+                  "whole volume history, subdivide_triangles_6(repeat>=2) manifold, chaining of the manifold invariants "
                   "across mixed histories (fan then loop), Python-set order effects.",
-    "level_note": "Trusted: Coq kernel + vm_compute; the subdivision.py translator; the correspondence harness "
+    "level_note": "Model of RawMeshData._prepare_edges is hand-written and predates /repo 32e0758 (an edge declared twice is now "
+                  "kept once): it agrees with the code on every edge list without a repeated edge (proved for every documented input: "
+                  "C13_accepts_prepared_surface_exact); a repeated edge arises only under the known finding "
+                  "C13/non-simple-input-triangulate, which the oracle judges. "
+                  "Trusted: Coq kernel + vm_compute; the subdivision.py translator; the correspondence harness "
                   "(generators, driver canonicalisation, exact rational read-back of binary64 coordinates on inputs that "
                   "are multiples of 2^10*3^5*5*7). The order of a Python set (loop_subdivision's edge set) is not "
                   "modelled: results that passed through it are compared up to the renumbering it induces on the new "
@@ -100,6 +110,17 @@ def failure_key(case, o, cls):
         tables_before = bool(case.get("query")) or case["kind"] == "vol"     # the volume block computes cell adjacency on entry
         if same and edited and tables_before and not o.get("arg_conn_ok", True):
             return KEY_ARG_STALE
+        # joined cut: triangulate_face appended the diagonal a second time; prepare() rebuilds the edge container of the
+        # RESULT without the repeated edge, the argument keeps the container that holds it twice - nothing else differs
+        if case["kind"] == "surf" and not has_replacing_op(case):
+            ns = ORA.non_simple_surface(case["F"])
+            ops = [op[0] for op in case.get("ops", [])]
+            ka = [tuple(sorted(e)) for e in arg.get("E", [])]
+            kr = [tuple(sorted(e)) for e in res.get("E", [])]
+            others = all(arg.get(k) == res.get(k) for k in ("V", "F", "C", "corn", "ccorn") if k in res)
+            if (ns and ns[0] == "joined-cut" and any(nm in TRIANGULATING for nm in ops) and others
+                    and len(set(ka)) < len(ka) and set(ka) == set(kr) and len(set(kr)) == len(kr)):
+                return KEY_CUT
         return None
     if cls.startswith("result/") and case["kind"] == "surf":
         ns = ORA.non_simple_surface(case["F"])
